@@ -27,7 +27,8 @@ def worker(j, items, seeds, tier):
         t0 = time.time()
         rc, o = sh('git -C %s apply %s' % (rr, os.path.join(d, 'patch.diff')))
         if rc != 0:
-            out.append((p, n, None, 'patch does not apply: ' + o[-200:])); continue
+            out.append((p, n, None, 'patch does not apply: ' + o[-200:]))
+            print('%s %-6s PATCH DOES NOT APPLY %s' % (p, n, o.strip()[-120:]), flush=True); continue
         per_seed, res = {}, None
         try:
             for sd in seeds:
